@@ -64,14 +64,17 @@ func (x *vfExec) violation(fp, desc string) {
 	x.r.violation(fp, desc, vfCase{Scenario: x.cfg.Scenario, Name: x.cfg.Name, Events: append([]string{}, x.history...)})
 }
 
-type vfNode struct {
+type vfBfsNode struct {
 	hist    []string
 	enabled []string
 }
 
 // vfRunHistory executes hist (judging only the last event unless judgeAll) and
 // returns (canon, observation log, enabled events, panic text).
+var vfLastDevs []string // single-deviation variants of the last event of the most recent vfRunHistory
+
 func vfRunHistory(r *vfRun, cfg *vfExploreCfg, hist []string, judgeAll bool, leaf bool) (canon string, obs string, enabled []string, panicked string) {
+	vfLastDevs = nil
 	body := func() {
 		x := &vfExec{r: r, cfg: cfg}
 		inst := cfg.New(x)
@@ -89,6 +92,9 @@ func vfRunHistory(r *vfRun, cfg *vfExploreCfg, hist []string, judgeAll bool, lea
 		if !leaf {
 			canon = inst.Canon()
 			enabled = inst.Enabled()
+			if d, ok := inst.(interface{ LastDeviations() []string }); ok && len(hist) > 0 {
+				vfLastDevs = d.LastDeviations()
+			}
 		}
 		x.judge = true
 		sb.WriteString("finish => ")
@@ -128,11 +134,11 @@ func vfExplore(r *vfRun, cfg *vfExploreCfg) {
 	seen[vfHash(canon0)] = struct{}{}
 	r.res.States++
 	r.outcome(obs0)
-	frontier := []vfNode{{hist: nil, enabled: en0}}
+	frontier := []vfBfsNode{{hist: nil, enabled: en0}}
 	selfTests := 0
 	depthDone := 0
 	for depth := 1; depth <= cfg.MaxDepth && len(frontier) > 0; depth++ {
-		var next []vfNode
+		var next []vfBfsNode
 		for _, n := range frontier {
 			evs := n.enabled
 			for pass := 0; pass < 2; pass++ {
@@ -140,7 +146,9 @@ func vfExplore(r *vfRun, cfg *vfExploreCfg) {
 				if leaf {
 					evs = cfg.Leaf
 				}
-				for _, ev := range evs {
+				evs = append([]string{}, evs...)
+				for ei := 0; ei < len(evs); ei++ {
+					ev := evs[ei]
 					if r.outOfTime() {
 						r.res.Bounds["depth_completed:"+cfg.Name] = depthDone
 						return
@@ -152,6 +160,10 @@ func vfExplore(r *vfRun, cfg *vfExploreCfg) {
 					r.unmark()
 					r.res.Executions++
 					r.res.Transitions++
+					if !leaf && len(vfLastDevs) > 0 {
+						evs = append(evs, vfLastDevs...)
+						r.count("choice_deviation_variants", int64(len(vfLastDevs)))
+					}
 					if p != "" {
 						r.violation("panic:"+vfPanicFingerprint(p), "panic: "+vfFirstLine(p), c)
 						continue
@@ -186,7 +198,7 @@ func vfExplore(r *vfRun, cfg *vfExploreCfg) {
 						}
 						continue
 					}
-					next = append(next, vfNode{hist: h, enabled: en})
+					next = append(next, vfBfsNode{hist: h, enabled: en})
 				}
 			}
 		}
